@@ -39,6 +39,11 @@ def main():
     if '--only' in sys.argv:
         only = sys.argv[sys.argv.index('--only') + 1]
     wt = os.path.join(d, 'wt')
+    # bring the scratch worktree to /repo's current HEAD (fix commits land continuously; the
+    # models follow /repo HEAD, so a seed must be judged on top of it)
+    sh('git checkout -q -- . && git clean -fdq', cwd=wt)
+    rch, head = sh('git -C /repo rev-parse HEAD')
+    sh('git checkout -q --detach ' + head.strip(), cwd=wt)
     bugs = sorted(b for b in os.listdir(os.path.join(d, 'out')) if b.startswith('bug'))
     for b in bugs:
         if only and b != only:
@@ -59,6 +64,15 @@ def main():
         m = re.search(r'(\d+) passed', outt)
         passed = int(m.group(1)) if m else -1
         failed = re.search(r'(\d+) failed', outt)
+        tries = 0
+        while (passed != BASE_PASSED or failed) and passed >= BASE_PASSED - 2 and tries < 2:
+            # the suite has a rare load-dependent flake (also on the clean tree): re-run
+            tries += 1
+            rct, outt = sh('/venv/bin/python -m pytest -q -p no:cacheprovider --timeout=900 -n 4 '
+                           '2>&1 | tail -3', cwd=wt, env={'PYTHONPATH': wt})
+            m = re.search(r'(\d+) passed', outt)
+            passed = int(m.group(1)) if m else -1
+            failed = re.search(r'(\d+) failed', outt)
         ok_demo = (rc0 == 0 and rc1 != 0)
         ok_suite = (passed == BASE_PASSED and not failed)
         t0 = time.time()
@@ -100,6 +114,7 @@ def main():
             'needs': meta.get('needs', ''),
             'files': meta.get('files', []),
             'origin': 'independent sub-agent given only the property text and a scratch worktree',
+            'repo_head_when_confirmed': head.strip()[:10],
             'confirmed': {
                 'demo_on_unmodified_tree': 'exit {} ({})'.format(rc0, out0.strip().split('\n')[-1][:120]),
                 'demo_with_patch': 'exit {} ({})'.format(rc1, out1.strip().split('\n')[-1][:200]),
